@@ -101,12 +101,12 @@ enum Dec {
 }
 
 pub struct Prog<'a> {
-    run: &'a mut Run,
+    pub run: &'a mut Run,
     dec: Dec,
-    delivered: Vec<u8>,
-    truth: Option<Truth>,
+    pub delivered: Vec<u8>,
+    pub truth: Option<Truth>,
     lines: Vec<String>,
-    failed: bool,
+    pub failed: bool,
     label: String,
 }
 
